@@ -41,6 +41,7 @@ struct Pair {
     h: Node,
     t: Node,
     port: u16,
+    ws_port: u16,
 }
 
 fn start_pair(workdir: &str, n: usize) -> Pair {
@@ -65,7 +66,8 @@ fn start_pair(workdir: &str, n: usize) -> Pair {
         }
         std::thread::sleep(Duration::from_millis(10));
     }
-    Pair { h, t, port }
+    let ws_port = crate::net::start_ws(h.dbs.clone());
+    Pair { h, t, port, ws_port }
 }
 
 pub fn main(args: &[String]) {
@@ -101,7 +103,25 @@ pub fn main(args: &[String]) {
         pair.t.side_state();
         for (i, b) in case["bodies"].as_array().unwrap_or(&empty).iter().enumerate() {
             let body = sub(b["body"].as_str().unwrap());
-            let resp = post(pair.port, &body);
+            // one WebSocket text frame instead of an HTTP body: the replies come back as frames
+            let over_ws = case["transport"].as_str() == Some("ws");
+            let mut frames: Vec<String> = vec![];
+            let resp = if over_ws {
+                match crate::net::Conn::ws(pair.ws_port) {
+                    Ok(mut k) => match k.send(&body) {
+                        Ok(_) => {
+                            frames = k.collect_until_quiet(Duration::from_millis(80));
+                            k.close();
+                            std::thread::sleep(Duration::from_millis(60));
+                            Ok(String::new())
+                        }
+                        Err(e) => Err(e),
+                    },
+                    Err(e) => Err(e),
+                }
+            } else {
+                post(pair.port, &body)
+            };
             // twin: one fresh session, command by command
             let c = format!("h{}-{}", n, i);
             let mut twin = vec![];
@@ -114,7 +134,8 @@ pub fn main(args: &[String]) {
             }
             pair.t.close(&c);
             pair.t.drain_all();
-            let mut ev = json!({"ev":"http","run":id,"i":i,"body":body,"twin":twin,"db":db});
+            let mut ev = json!({"ev": if over_ws { "ws" } else { "http" },"run":id,"i":i,"body":body,"twin":twin,"db":db,
+                                "frames":frames});
             match resp {
                 Ok(text) => {
                     ev["resp"] = json!(text);
